@@ -26,6 +26,7 @@ import (
 	"strings"
 	"sync"
 	"testing"
+	"testing/synctest"
 	"time"
 
 	"verifsim/fakeredis"
@@ -94,6 +95,14 @@ func genLuaExec(seed uint64, tier, variant string) any {
 	if strings.HasPrefix(variant, "cluster") {
 		x.Shards = 2 + r.IntN(2)
 		x.Replicas = r.IntN(2) // at most 4 nodes in total (DESIGN.md 3.2: all are asked for the topology in one batch)
+		// The queue's herd yields (fb.put.send: every put of a flow buffer; ring.put.woken: puts that found the ring
+		// full) are identified by the command alone; on a cluster client the same SCRIPT LOAD goes to several nodes
+		// from worker goroutines at once, which would make those identities ambiguous: ring queues that cannot fill
+		// (>= 16 slots per connection for at most 6 tasks)
+		p.Opt.Queue = "ring"
+		if p.Opt.RingScale < 4 {
+			p.Opt.RingScale = 4
+		}
 	}
 	nodes := luaNodeCount(x)
 	faulty := r.IntN(2) == 0
@@ -209,6 +218,7 @@ type luaEnv struct {
 	seq   int
 	batch int
 	obs   [][]*luaObs // [task][call]
+	spinners []chan struct{} // dead-pipe clean-up loops blocked in luaSpinPark
 }
 
 // luaSpy passes everything through to the wrapped client and records what lua.go asked for.
@@ -305,6 +315,42 @@ func luaLoaded(l *Lua) bool {
 	return v
 }
 
+// Dead-pipe clean-up. The clean-up loop of a dead pipe spins (runtime.Gosched) while callers are still registered on it
+// and nothing is ready to be handed to them; the verif hook in that branch lets the simulator intervene, and the shared
+// glue turns every turn into a sleep of one fake millisecond. Whether the loop finds the in-flight callers' entries on
+// its first turn or only after the writer goroutine has noticed the failure and exited is decided by the Go runtime
+// (writer, reader, the wake-up PING and the callers all run freely after the connection died). With the sleep, callers
+// are released in the fault's step at fake time T in one process and one millisecond and a scheduler tick later in
+// another, and everything they do next (retry timers) shifts with it. In this scenario the loop therefore blocks at
+// that hook on a channel instead (luaSpinPark), and before the scheduler looks at the outcome of a step it releases
+// the blocked loops again and again, waiting for quiescence in between, until none is left or a bound is reached
+// (luaSettle; a loop that waits for a caller parked at a yield point stays blocked and is tried again after every
+// step). No fake time passes, and what a connection's death releases is released in the step in which it died.
+func (le *luaEnv) luaSpinPark() {
+	ch := make(chan struct{})
+	le.mu.Lock()
+	le.spinners = append(le.spinners, ch)
+	le.mu.Unlock()
+	<-ch
+}
+
+func (le *luaEnv) luaSettle() {
+	for round := 0; round < 20; round++ {
+		le.mu.Lock()
+		ws := le.spinners
+		le.spinners = nil
+		le.mu.Unlock()
+		if len(ws) == 0 {
+			return
+		}
+		le.sim.Stats["lua.cleanup-loop-turns"] += len(ws)
+		for _, ch := range ws {
+			close(ch)
+		}
+		synctest.Wait()
+	}
+}
+
 // ---- set-up ----
 
 // luaClusterSetup builds a cluster of `shards` masters owning equal slot ranges; the first `replicas` shards get one replica.
@@ -360,186 +406,143 @@ func (le *luaEnv) call(cl Client, ti, ci int, cs CallSpec, ctx context.Context) 
 }
 
 func luaRun(t *testing.T, seed uint64, p *Plan, x luaX, out *Outcome) *luaEnv {
-	e := newEnv(seed, p, out)
-	s := e.sim
-	le := &luaEnv{env: e, x: x}
-	VerifPinAllParallelism(16) // every multiplexer: at least as many workers as wires/nodes (fewer = Go map order decides)
-	if x.Shards > 0 {
-		luaClusterSetup(s.W, x.Shards, x.Replicas)
-		e.addr = "10.0.0.1:6379"
-		name := func(w *muxwire) string {
-			if n := muxRegName(w); n != "" {
-				return n
+	le := &luaEnv{x: x}
+	// keyed commands pick their wire of a multiplexer with util.FastRand; after a fault or a tick several callers draw in
+	// the same step in an order the Go runtime decides: make the value a function of (seed, step, n)
+	randState.stepMode.Store(true)
+	defer randState.stepMode.Store(false)
+	yield := VerifHooks.Yield
+	VerifHooks.Yield = func(ctx context.Context, site string, obj any, cmd []string) {
+		if site == "pipe.cleanup.spin" {
+			if s := curSim.Load(); s != nil && !s.IsDown() && le.env != nil && le.sim == s {
+				le.luaSpinPark()
+				return
 			}
-			return "wire-new"
 		}
-		muxwireName.Store(&name)
-	} else {
-		s.W.AddNode(e.addr)
-	}
-	le.addrs = s.W.NodeAddrs()
-	for i, sp := range x.Scripts {
-		src := luaSource(i, sp.readOnly())
-		var opts []LuaOption
-		if sp.Load {
-			opts = append(opts, WithLoadSHA1(true))
+		if ctx == nil && (site == "fb.put.send" || site == "ring.put.woken") {
+			// these sites have no context; their identity is the command alone, and two tasks running the same script
+			// send commands that agree in their first 48 bytes. Puts run on the task's own goroutine on a single-node
+			// client (and cluster plans use queues where these sites do not park workload commands): name the task.
+			ctx = sched.WithTask(context.Background(), identifyGoroutine())
 		}
-		var l *Lua
-		switch sp.Kind {
-		case "plain":
-			l = NewLuaScript(src, opts...)
-		case "ro":
-			l = NewLuaScriptReadOnly(src, opts...)
-		case "nosha":
-			l = NewLuaScriptNoSha(src)
-		case "ro-nosha":
-			l = NewLuaScriptReadOnlyNoSha(src)
-		case "retryable":
-			l = NewLuaScriptRetryable(src, opts...)
-		case "nosha-retryable":
-			l = NewLuaScriptNoShaRetryable(src)
-		default:
-			out.HarnessErr = "lua-exec: unknown script kind " + sp.Kind
-			e.finish()
-			return le
-		}
-		l.maxp = 16 // GOMAXPROCS-derived fan-out width of ExecMulti's SCRIPT LOAD: pinned (>= number of nodes)
-		le.lua = append(le.lua, l)
+		yield(ctx, site, obj, cmd)
 	}
-	if len(le.lua) == 0 {
-		out.HarnessErr = "lua-exec: plan without scripts"
-		e.finish()
-		return le
-	}
-	for _, pl := range x.Preload {
-		if pl[0] < len(x.Scripts) {
-			s.W.Ghost(le.addrs[pl[1]%len(le.addrs)], "SCRIPT", "LOAD", luaSource(pl[0], x.Scripts[pl[0]].readOnly()))
+	defer func() { VerifHooks.Yield = yield }()
+	p.Opt.Procs = 16
+	bad := func(e *env, format string, a ...any) {
+		if e.out.HarnessErr == "" {
+			e.out.HarnessErr = "lua-exec: " + fmt.Sprintf(format, a...)
 		}
 	}
-	var setupErr error
-	tickW := s.Cfg.W.Tick
-	s.Cfg.W.Tick = 0.02
-	rr := e.background("setup", func(ctx context.Context) {
-		opt := e.clientOption()
-		if x.Shards > 0 {
-			opt.ForceSingleClient = false
-		}
-		cl, err := NewClient(opt)
-		if err != nil {
-			setupErr = err
-			return
-		}
-		setMaxP(cl, 16)
-		e.clients = append(e.clients, cl)
+	standardRun(t, seed, p, out, runHooks{
+		noDefaultNode: x.Shards > 0,
+		// clusterClient.Close closes every node connection on a goroutine of its own, and the pool locks they take are
+		// numbered in the order cluster._refresh created the multiplexers (Go map order): the close phase of a cluster
+		// client cannot be replayed, so there is none (the bubble ends with the client's goroutines blocked)
+		noClose: x.Shards > 0,
+		beforeClient: func(e *env) {
+			le.env = e
+			s := e.sim
+			s.Cfg.TickEpsilon = time.Nanosecond // see sched.Config
+			muxRegReset(16) // every multiplexer: at least as many workers as wires/nodes (fewer = Go map order decides)
+			if x.Shards > 0 {
+				luaClusterSetup(s.W, x.Shards, x.Replicas)
+				e.addr = "10.0.0.1:6379"
+			}
+			le.addrs = s.W.NodeAddrs()
+			for i, sp := range x.Scripts {
+				src := luaSource(i, sp.readOnly())
+				var opts []LuaOption
+				if sp.Load {
+					opts = append(opts, WithLoadSHA1(true))
+				}
+				var l *Lua
+				switch sp.Kind {
+				case "plain":
+					l = NewLuaScript(src, opts...)
+				case "ro":
+					l = NewLuaScriptReadOnly(src, opts...)
+				case "nosha":
+					l = NewLuaScriptNoSha(src)
+				case "ro-nosha":
+					l = NewLuaScriptReadOnlyNoSha(src)
+				case "retryable":
+					l = NewLuaScriptRetryable(src, opts...)
+				case "nosha-retryable":
+					l = NewLuaScriptNoShaRetryable(src)
+				default:
+					bad(e, "unknown script kind %q", sp.Kind)
+					l = NewLuaScript(src)
+				}
+				l.maxp = 16 // GOMAXPROCS-derived fan-out width of ExecMulti's SCRIPT LOAD: pinned (>= number of nodes)
+				le.lua = append(le.lua, l)
+			}
+			for _, pl := range x.Preload {
+				if pl[0] >= 0 && pl[0] < len(x.Scripts) && pl[1] >= 0 {
+					s.W.Ghost(le.addrs[pl[1]%len(le.addrs)], "SCRIPT", "LOAD", luaSource(pl[0], x.Scripts[pl[0]].readOnly()))
+				}
+			}
+			le.obs = make([][]*luaObs, len(p.Tasks))
+			for ti, calls := range p.Tasks {
+				le.obs[ti] = make([]*luaObs, len(calls))
+				for ci := range calls {
+					le.obs[ti][ci] = &luaObs{}
+				}
+			}
+		},
+		newClient: func(e *env, i int) (Client, error) {
+			opt := e.clientOption()
+			opt.ForceSingleClient = x.Shards == 0
+			return NewClient(opt)
+		},
+		afterSetup: func(e *env) {
+			s := e.sim
+			if _, ok := e.clients[0].(*clusterClient); ok != (x.Shards > 0) {
+				bad(e, "unexpected client type %T for %d shards", e.clients[0], x.Shards)
+			}
+			s.Settle = func(*sched.Sim) { le.luaSettle() }
+			// sha1Mu: see the file comment
+			s.OnStep = func(s *sched.Sim) error {
+				running := make([]int, len(le.lua))
+				for ti, t := range s.Tasks {
+					if ti < len(p.Tasks) {
+						if rec := t.Running(); rec != nil {
+							running[p.Tasks[ti][rec.Index].N%len(le.lua)]++
+						}
+					}
+				}
+				for ti, t := range s.Tasks {
+					if ti >= len(p.Tasks) {
+						break
+					}
+					hold := false
+					if next := len(p.Tasks[ti]) - t.Remaining(); t.Running() == nil && next < len(p.Tasks[ti]) {
+						n := p.Tasks[ti][next].N % len(le.lua)
+						hold = le.lua[n].loadSha1 && running[n] > 0 && !luaLoaded(le.lua[n])
+					}
+					if hold && !t.Hold {
+						s.Stats["lua.first-exec-held-back"]++
+					}
+					t.Hold = hold
+				}
+				return nil
+			}
+		},
+		ghost: func(e *env, g GhostSpec) func(*sched.Sim) {
+			if g.Kind != "script-flush" {
+				bad(e, "unknown ghost kind %q", g.Kind)
+				return func(*sched.Sim) {}
+			}
+			addr := le.addrs[g.Node%len(le.addrs)]
+			return func(s *sched.Sim) { s.W.Ghost(addr, "SCRIPT", "FLUSH") }
+		},
+		extraCall: func(e *env, cl Client, cs CallSpec, ctx context.Context, rec *sched.CallRec) *CallResult {
+			if cs.Kind != "lexec" && cs.Kind != "lmulti" || len(cs.Cmds) == 0 {
+				return &CallResult{Kind: cs.Kind, Err: "lua-exec: bad call spec"}
+			}
+			return le.call(cl, rec.Task, rec.Index, cs, ctx)
+		},
 	})
-	s.Cfg.W.Tick = tickW
-	if rr.Reason != "done" || setupErr != nil {
-		out.HarnessErr = fmt.Sprintf("setup failed: reason=%s err=%v", rr.Reason, setupErr)
-		e.finish()
-		return le
-	}
-	if x.Shards > 0 {
-		if _, ok := e.clients[0].(*clusterClient); !ok {
-			out.HarnessErr = fmt.Sprintf("lua-exec: expected a cluster client, got %T", e.clients[0])
-			e.finish()
-			return le
-		}
-	}
-	base := s.Step
-	le.obs = make([][]*luaObs, len(p.Tasks))
-	for ti, calls := range p.Tasks {
-		ti := ti
-		var cs []sched.Call
-		le.obs[ti] = make([]*luaObs, len(calls))
-		for ci, c := range calls {
-			ci, c := ci, c
-			le.obs[ti][ci] = &luaObs{}
-			cs = append(cs, sched.Call{
-				Name:    c.Kind,
-				Timeout: time.Duration(c.TimeoutMs) * time.Millisecond,
-				Run: func(ctx context.Context, rec *sched.CallRec) any {
-					nameGoroutine(sched.TaskID(ctx))
-					return le.call(e.clients[0], ti, ci, c, ctx)
-				},
-			})
-		}
-		s.AddTask(fmt.Sprintf("task%d", ti), cs)
-	}
-	for _, g := range p.Ghosts {
-		g := g
-		if g.Kind != "script-flush" {
-			out.HarnessErr = "lua-exec: unknown ghost kind " + g.Kind
-			e.finish()
-			return le
-		}
-		addr := le.addrs[g.Node%len(le.addrs)]
-		s.Ghosts = append(s.Ghosts, &sched.GhostOp{Name: "script-flush " + addr, MinStep: base + g.MinStep, Do: func(s *sched.Sim) {
-			s.W.Ghost(addr, "SCRIPT", "FLUSH")
-		}})
-	}
-	for _, f := range p.Faults {
-		s.Faults = append(s.Faults, &sched.Fault{Kind: f.Kind, AtStep: base + f.AtStep, NeedInflight: f.NeedInflight, Pick: f.Pick, Dur: time.Duration(f.DurMs) * time.Millisecond, Arg: f.Arg})
-	}
-	// sha1Mu: see the file comment
-	s.OnStep = func(s *sched.Sim) error {
-		running := make([]int, len(le.lua))
-		for ti, t := range s.Tasks {
-			if ti < len(p.Tasks) {
-				if rec := t.Running(); rec != nil {
-					running[p.Tasks[ti][rec.Index].N%len(le.lua)]++
-				}
-			}
-		}
-		for ti, t := range s.Tasks {
-			if ti >= len(p.Tasks) {
-				break
-			}
-			hold := false
-			if next := len(p.Tasks[ti]) - t.Remaining(); t.Running() == nil && next < len(p.Tasks[ti]) {
-				n := p.Tasks[ti][next].N % len(le.lua)
-				hold = le.lua[n].loadSha1 && running[n] > 0 && !luaLoaded(le.lua[n])
-			}
-			if hold && !t.Hold {
-				s.Stats["lua.first-exec-held-back"]++
-			}
-			t.Hold = hold
-		}
-		return nil
-	}
-	rr = s.Run(s.AllTasksDone)
-	out.Reason = rr.Reason
-	if rr.Reason == "stuck" || rr.Reason == "maxsteps" {
-		s.Heal()
-		s.Cfg.DrainBound = 2 * time.Minute
-		completed := func() int {
-			n := 0
-			for _, t := range s.Tasks {
-				n += len(t.Recs)
-				if t.Running() != nil {
-					n--
-				}
-			}
-			return n
-		}
-		for round := 0; round < 40; round++ {
-			before := completed()
-			s.Cfg.MaxSteps = s.Step + 2000
-			rr2 := s.Run(s.AllTasksDone)
-			out.Reason = rr.Reason + "+" + rr2.Reason
-			if rr2.Reason != "maxsteps" || completed() == before {
-				break
-			}
-			s.Stats["drain.extra-rounds"]++
-		}
-	}
-	for _, t := range s.Tasks {
-		if rec := t.Running(); rec != nil {
-			rec.Hung = true
-		}
-	}
-	s.OnStep = nil
-	e.closeClients()
-	e.finish()
 	return le
 }
 
